@@ -383,6 +383,31 @@ def run(ctx):
     ctx.oblig(ok, {"escapes": {k: repr(v) for k, v in esc.items()}}, "\\n \\t \\r \\\\ \\\"")
     if not ok:
         ctx.violation("table|escapes", ue.file_line(), "the .stringz escape table is %s (expected %s)" % ({k: repr(v) for k, v in esc.items()}, {k: repr(v) for k, v in wante.items()}))
+    # the lexer finds the end of a string the way unescape reads it: a backslash always pairs with the character after it
+    sl = ctx.fn(LX + "str")
+    bsw = []
+    for b in sorted(sl.live_blocks()):
+        t = sl.term(b)
+        if t["k"] == "switch":
+            c = sl.expr(t["a"], 6)
+            if c[0] == "bin" and c[1] in ("Eq", "Ne") and ("const", 92) in (c[2], c[3]):
+                tg_ = {v: x for v, x in t["targets"]}
+                t_true = t["otherwise"] if 0 in tg_ else tg_.get(1)
+                t_false = tg_.get(0, t["otherwise"])
+                bsw.append((b, t_true if c[1] == "Eq" else t_false))
+    ctx.need(len(bsw) == 1, "backslash test in the string lexer (found %d)" % len(bsw))
+    bb_, on_bs = bsw[0]
+    lps_ = [(h, body) for h, (body, latches) in kit.loops(sl).items() if bb_ in body]
+    ctx.need(lps_, "character loop of the string lexer")
+    h_, body_ = min(lps_, key=lambda x: len(x[1]))
+    bumps = {b for b, t, c in sl.calls() if c and c.endswith("Cursor::<'_>::bump") or (c or "").endswith("::bump")}
+    skip_bumps = {b for b in bumps if b in body_ and not sl.dominates(b, bb_)}
+    ctx.instance(1)
+    ok = bool(skip_bumps) and h_ not in sl.reachable(on_bs, avoid=skip_bumps)
+    ctx.oblig(ok, {"string lexer": "a backslash always consumes the next character"}, "must-pass-through a second bump on the backslash edge")
+    if not ok:
+        ctx.violation("string-escape-pairing", sp_file_line(sl.term(bb_).get("sp")), "in the string lexer a backslash does not always swallow the character after it (the skip is "
+                      "conditional or missing): `\\\\\"` then ends the literal in a different place than unescape() reads it, so the words of a .stringz change")
     ctx.finish_rule()
 
     # ------------------------------------------------------------------ R7
